@@ -15,7 +15,8 @@ RULE = ('quick: all trajectories over 3 labels up to length 6 x tau 1..4 x both 
         "property's own quantifier) plus 20k random sets. Compared: cored trajectories / error kind "
         'against the reference rule; on the implementation output also run lengths >= tau and '
         'idempotence. Non-trivial: result differs from the input or an error is raised.'
-        ' Added classes: int8/uint8/int16 arrays with runs longer than 127/255 frames, repeated coring calls on one StateTraj object, > 256 trajectories / > 2^16 frames / > 64 states / zero-length members, other memory layouts, NumPy integer lag times.')
+        ' Added classes: int8/uint8/int16 arrays with runs longer than 127/255 frames, repeated coring calls on one StateTraj object, > 256 trajectories / > 2^16 frames / > 64 states / zero-length members, other memory layouts, NumPy integer lag times.'
+        ' Later: direct coring with a smaller window before iterative coring on the same object, the mode flag as NumPy bool / integer, arrays of different signedness with > 128 states, reused containers.')
 TRUSTED = ['numba typed List / np.unique re-wrapping of the result is exercised, not modelled']
 ASSUMPTIONS = ['labels within +-2^29', 'every trajectory has at least one frame']
 BATCH = 6000
